@@ -402,7 +402,7 @@ func (bn *builtNetwork) run() (quiescent bool) {
 }
 
 // runNet builds, runs and records one network.
-func runNet(ns NetSpec, w *bufio.Writer) (info map[string]any, sample []map[string]any, events int) {
+func runNet(ns NetSpec, w *bufio.Writer, ic *intConfig) (info map[string]any, sample []map[string]any, events int) {
 	timing.ResetIDGenerator()
 	timing.UseSequentialIDGenerator()
 	bn := buildNetwork(ns, nil)
@@ -417,6 +417,12 @@ func runNet(ns NetSpec, w *bufio.Writer) (info map[string]any, sample []map[stri
 	for _, n := range names {
 		bn.ports[n].AcceptHook(rec)
 	}
+	var obs *netInt
+	intLine := 0
+	if ic != nil {
+		obs = attachInternals(bn, ns.ID, ic.every, ic.max)
+		intLine = ic.lines + 1
+	}
 	quiescent := bn.run()
 	unsent, held := 0, 0
 	for _, a := range bn.agents {
@@ -425,11 +431,18 @@ func runNet(ns NetSpec, w *bufio.Writer) (info map[string]any, sample []map[stri
 			held += p.NumIncoming()
 		}
 	}
+	if obs != nil {
+		// settled: the engine has nothing left, every message was sent and delivered, the devices hold nothing
+		obs.finish(ic, quiescent && unsent == 0 && held == 0 && rec.sends == rec.recvs)
+	}
 	rec.emit(map[string]any{"e": "quiesce", "t": strconv.FormatUint(uint64(bn.eng.CurrentTime()), 10), "quiescent": quiescent,
 		"unsent": unsent, "held": held, "drained": held == 0 && quiescent})
 	info = map[string]any{"id": ns.ID, "kind": ns.Kind, "class": ns.Class, "shape": ns.Shape, "sent": rec.sends, "delivered": rec.recvs,
 		"unsent": unsent, "held": held, "quiescent": quiescent, "end_ps": uint64(bn.eng.CurrentTime()), "msgs": len(ns.Msgs),
 		"devices": len(ns.Devices)}
+	if obs != nil {
+		info["int_line"], info["int_lines"] = intLine, ic.lines+1-intLine
+	}
 	return info, rec.sample, rec.events
 }
 
@@ -697,9 +710,23 @@ func init() {
 			First    int       `json:"first"` // index of the first generated network (chunks of one run)
 			Specs    []NetSpec `json:"specs"`
 			Out      string    `json:"out"`
+			// internals: project the State of every switch / endpoint after every N-th handled event (SwitchInternals.tla)
+			IntEvery int    `json:"internals_every"`
+			IntMax   int    `json:"internals_max"`
+			IntOut   string `json:"int_out"`
 		}
 		if err := json.Unmarshal(raw, &in); err != nil {
 			return nil, err
+		}
+		var ic *intConfig
+		if in.IntEvery > 0 && in.IntOut != "" {
+			fi, err := os.Create(in.IntOut)
+			if err != nil {
+				return nil, err
+			}
+			defer fi.Close()
+			ic = &intConfig{every: in.IntEvery, max: in.IntMax, w: bufio.NewWriterSize(fi, 1<<20), drifts: map[IntDrift]bool{}, stats: map[string]int{}}
+			defer ic.w.Flush()
 		}
 		specs := in.Specs
 		for i := 0; i < in.Networks; i++ {
@@ -721,7 +748,7 @@ func init() {
 		line, events := 1, 0
 		for _, ns := range specs {
 			starts = append(starts, line)
-			info, smp, n := runNet(ns, w)
+			info, smp, n := runNet(ns, w, ic)
 			infos = append(infos, info)
 			line += n
 			events += n
@@ -729,6 +756,10 @@ func init() {
 				sample = smp
 			}
 		}
-		return map[string]any{"networks": len(specs), "events": events, "infos": infos, "starts": starts, "sample": sample, "specs": specs}, nil
+		res := map[string]any{"networks": len(specs), "events": events, "infos": infos, "starts": starts, "sample": sample, "specs": specs}
+		if ic != nil {
+			res["drifts"], res["int_stats"] = sortedDrifts(ic.drifts), ic.stats
+		}
+		return res, nil
 	})
 }
